@@ -394,12 +394,38 @@ def r7_formatter_pipeline(ctx):
                     continue
                 body = cbs[0]
                 names = {(1, k): (c[1] if c[0] == "cap" else "<formatter>") for k, c in enumerate(t[2])}
-            ps = mirsum.paths(prog, body, depth=3)
+            ps = mirsum.paths(prog, body, depth=0)
             vals = set()
             for _c, trace, _ret in ps or []:
                 f = None
                 for x in trace:
                     f = f or fmt_call(x)
+                f = f or fmt_call(_ret)          # (a helper inlined into the returned term)
+                if f is None:
+                    # the call may sit in a private helper of the same module: its format call, with the helper's parameters replaced
+                    # by the arguments of this call
+                    for x in trace:
+                        hb = prog.bodies.get(x[1]) if x[0] == "call" else None
+                        if hb is None and x[0] == "call":
+                            cands_ = [bb_ for n_, bb_ in prog.bodies.items() if n_.endswith("::" + x[1].split("::")[-1]) and "macro_helpers::formatting::" in n_]
+                            hb = cands_[0] if len(cands_) == 1 else None
+                        if hb is None or "macro_helpers::formatting::" not in hb.name or (hb.is_pub and not re.search(r"::format_\w+_to_(display|view|formatter)$", hb.name)):
+                            continue          # (a private helper, or a sibling entry point this one delegates to)
+                        for _c2, tr2, _r2 in mirsum.paths(prog, hb, depth=0) or []:
+                            f2 = None
+                            for y in tr2:
+                                f2 = f2 or fmt_call(y)
+                            if f2 is not None:
+                                def sub_(t_, args_=x[2]):
+                                    if isinstance(t_, tuple):
+                                        if len(t_) == 2 and t_[0] == "p" and isinstance(t_[1], int) and 1 <= t_[1] <= len(args_):
+                                            return args_[t_[1] - 1]
+                                        return tuple(sub_(u_, args_) for u_ in t_)
+                                    return t_
+                                f = sub_(f2)
+                                break
+                        if f is not None:
+                            break
                 if f is None:
                     vals.add("<a path that returns without calling the ICU formatter>")
                 if f is not None:
